@@ -3,7 +3,7 @@
    from it (sorted listings of the real trees, real chunk ladder) mirrors the source whenever it returns Ok. *)
 From RJ Require Import Base.Prelude Base.OrderedPlan Model.Settings Model.Core Model.Fs Model.Paths Model.Sync Model.SyncTop
   Spec.PlanSpec Spec.Mirror Proofs.FsProofs Proofs.ExecProofs Proofs.MirrorProofs Proofs.PathsProofs Proofs.InstanceProofs
-  Proofs.CrashProofs Proofs.CrashMain Proofs.WfProofs.
+  Proofs.IdemProofs Proofs.IdemMain Proofs.ConfinedMain Proofs.CrashProofs Proofs.CrashMain Proofs.WfProofs.
 
 Theorem kill_states_well_formed cfg S D a fw ans bits ls ld ft :
   unique_keys D -> wf_fs D ->
@@ -41,4 +41,33 @@ Proof.
   split; [exact Hm|]. intros p t b Htp HS Hlt.
   apply (mirror_files_repaired now_far (excl_incl ex) normalize_unix Unix (cf_diff cfg2) S D s (d_fs (r_dest r2)) HG Hm p t b Htp HS).
   intros k. unfold now_far. lia.
+Qed.
+
+(* C04 for the executable instance, closed: run the executable sync, then run it again on what it left -
+   nothing assumed about the second listing (the tree it left is well-formed, so its sorted listing is valid). *)
+Theorem run_top_twice cfg S D a ans bits ex ft ans2 bits2 ft2 :
+  unique_keys S -> wf_fs S -> unique_keys D -> wf_fs D -> src_times_set S -> links_utf8 S ->
+  let r := run_top cfg S D a ans bits ex ft in
+  r_ok r = true -> r_skipped r = [] -> r_root_skipped r = false -> cf_dry cfg = false -> cf_fl cfg = Unix ->
+  b_same (cf_b cfg) = BSkip ->
+  let r2 := run_top cfg S (d_fs (r_dest r)) (d_anc (r_dest r)) ans2 bits2 ex ft2 in
+  r_ok r2 = true /\ d_fs (r_dest r2) = d_fs (r_dest r) /\ filter mutating (r_dest_trace r2) = [] /\
+  (forall p, ~ In (CGetFileContent p) (r_src_trace r2)) /\ r_prompts r2 = [] /\ stats_nothing (r_stats r2) = true.
+Proof.
+  intros HuS HwS HuD HwD Hts Hlk. cbv zeta. intros Hok Hsk Hrs Hdry Hfl Hsame.
+  pose proof (run_top_confined cfg S D a ans bits ex ft HuS HwS HuD HwD Hok Hsk Hrs Hdry) as Hnt.
+  destruct (kill_states_well_formed cfg S D a [] ans bits
+              (list_fs now_far (excl_incl ex) normalize_unix S) (list_fs now_far (excl_incl ex) normalize_unix D) ft HuD HwD) as [_ [Hw' Hu']].
+  change (run_orders_w cfg S D a [] ans bits (list_fs now_far (excl_incl ex) normalize_unix S)
+            (list_fs now_far (excl_incl ex) normalize_unix D) ft) with (run_top cfg S D a ans bits ex ft) in Hw', Hu'.
+  set (r := run_top cfg S D a ans bits ex ft) in *.
+  destruct (sync_twice_from now_far (excl_incl ex) normalize_unix chunk_real chunk_real_ok Unix
+              cfg S (world D a []) ans bits _ _ ft (world (d_fs (r_dest r)) (d_anc (r_dest r)) []) ans2 bits2
+              (list_fs now_far (excl_incl ex) normalize_unix (d_fs (r_dest r))) ft2
+              (list_fs_valid now_far (excl_incl ex) normalize_unix S HuS HwS)
+              (list_fs_valid now_far (excl_incl ex) normalize_unix D HuD HwD)
+              HwS HwD Hts (links_utf8_roundtrip S Hlk) eq_refl Hok Hsk Hrs Hdry Hnt Hfl Hsame eq_refl
+              (list_fs_valid now_far (excl_incl ex) normalize_unix (d_fs (r_dest r)) Hu' Hw'))
+    as (T1 & T2 & T3 & T4 & T5 & T6).
+  unfold run_top. repeat split; try assumption. rewrite T2. reflexivity.
 Qed.
